@@ -1726,3 +1726,90 @@ func rulePatternModifier(c *Ctx) []Obligation {
 	}
 	return []Obligation{bad(R, con, c.Pos(f.Pos()), "`pattern \"[a-z]+\" { modifier invert-match; }` is parsed and the modifier is read nowhere: the resolved type carries the pattern with its sense flipped, a type that adds the inverted pattern to a typedef that has the plain one gets nothing (the texts are equal), and a union of the two keeps one member")}
 }
+
+// ---------------------------------------------------------------- RPC.KINDS
+
+func init() {
+	register(&Rule{Name: "RPC.KINDS", Props: []string{"C04", "C17"}, Floor: 2,
+		Doc: "an entry that is linked as the input (output) of an rpc or action is of kind InputEntry (OutputEntry): wherever such an entry is made — converted from the statement, or made on demand by a lookup — the kind is set to that constant",
+		Run: ruleRPCKinds})
+}
+
+func ruleRPCKinds(c *Ctx) []Obligation {
+	const R = "RPC.KINDS"
+	entry := c.Named("yang", "Entry")
+	rpcT := c.Named("yang", "RPCEntry")
+	if entry == nil || rpcT == nil {
+		return []Obligation{undecided(R, "rpc parts", "-", "Entry / RPCEntry not found")}
+	}
+	fKind := FieldVar(entry, "Kind")
+	names, _ := c.entryKinds()
+	want := map[string]int64{}
+	for v, n := range names {
+		want[n] = v
+	}
+	var obs []Obligation
+	var fns []*ssa.Function
+	for _, fn := range c.Funcs {
+		if c.isRepoFn(fn) && fn.Blocks != nil {
+			fns = append(fns, fn)
+		}
+	}
+	sort.Slice(fns, func(i, j int) bool { return fns[i].Pos() < fns[j].Pos() })
+	for _, part := range []struct{ field, kind string }{{"Input", "InputEntry"}, {"Output", "OutputEntry"}} {
+		fPart := FieldVar(rpcT, part.field)
+		if fPart == nil || fKind == nil {
+			obs = append(obs, undecided(R, "rpc "+lower(part.field), "-", "RPCEntry."+part.field+" / Entry.Kind not found"))
+			continue
+		}
+		for _, fn := range fns {
+			n := 0
+			for _, st := range storesToField(fn, fPart) {
+				if isNilConst(st.Val) {
+					continue
+				}
+				// copies made by the deep copier keep the kind they copy
+				if _, f, _ := loadedField(st.Val); f != nil {
+					continue
+				}
+				if call, isC := st.Val.(*ssa.Call); isC {
+					if cal := call.Call.StaticCallee(); cal != nil && (cal.Name() == "dup" || cal.Name() == "shallowDup") {
+						continue
+					}
+				}
+				n++
+				con := fmt.Sprintf("%s: the entry linked as rpc %s #%d is of kind %s", c.FnName(fn), lower(part.field), n, part.kind)
+				// a store of the constant into Kind of the stored entry, or of the entry reached through the link,
+				// somewhere in the function
+				okk := false
+				eachInstr(fn, func(in ssa.Instruction) {
+					ks, isS := in.(*ssa.Store)
+					if !isS || okk {
+						return
+					}
+					_, f, base := fieldOf(ks.Addr)
+					if f != fKind || base == nil {
+						return
+					}
+					k, isK := constInt(ks.Val)
+					if !isK || k != want[part.kind] {
+						return
+					}
+					if sameObject(base, st.Val) || rootOf(base) == rootOf(st.Val) {
+						okk = true
+						return
+					}
+					if _, lf, _ := loadedField(base); lf == fPart {
+						okk = true
+					}
+				})
+				if okk {
+					obs = append(obs, ok(R, con, c.InstrPos(st), "Kind = "+part.kind+" is stored into it"))
+				} else {
+					obs = append(obs, bad(R, con, c.InstrPos(st), "the entry is linked without its kind being set to "+part.kind+": it keeps the kind its conversion gave it (a directory), and what asks for the kind — the augment applier's target test, printing, a client walking the tree — takes the "+lower(part.field)+" of an rpc for a container"))
+				}
+			}
+		}
+	}
+	return obs
+}
